@@ -81,6 +81,8 @@ def run_solver(cmd, path, timeout):
         first = out.split('\n', 1)[0].strip() if out else ''
         if first in ('sat', 'unsat', 'unknown'):
             return first, time.time() - t0, out
+        if first.startswith('timeout') or 'timeout' in first or 'interrupted' in out[:200]:
+            return 'timeout', time.time() - t0, ''
         return 'error', time.time() - t0, (out + '\n' + p.stderr)[:2000]
     except subprocess.TimeoutExpired:
         return 'timeout', time.time() - t0, ''
